@@ -198,6 +198,8 @@ class SimParallel(object):
         W = min(n_eff, len(tasks), world.max_workers)
         cv = threading.Condition()
         state = {"current": None, "next_task": 0, "live": set(range(W)), "abort": False}
+        import numpy as _np0
+        caller_err = _np0.geterr()
         results = []
         errors = []
         repo = os.path.realpath(os.environ.get("VERIF_REPO", "/repo"))
@@ -240,7 +242,7 @@ class SimParallel(object):
         def worker(me):
             try:
                 import numpy as _np
-                _np.seterr(all="ignore")          # per-thread in NumPy 2: match the caller's setting
+                _np.seterr(**caller_err)          # per-thread in NumPy 2: match the caller's setting
                 with cv:
                     while state["current"] != me and not state["abort"]:
                         cv.wait()
